@@ -184,12 +184,12 @@ func FuncBuilder(env *Zlisp, name string,
 		return MissingFunction, err
 	}
 
-	// minimal sanity check that we return the number of arguments
-	// on the stack that are declared
+	// a function without a body still has to leave its value behind:
+	// exactly one operand, like every call, however many results it
+	// declares (none, or several, left the data stack one short or
+	// growing with every call).
 	if len(body) == 0 {
-		for range retHash.KeyOrder {
-			gen.AddInstruction(PushInstr{expr: SexpNull})
-		}
+		gen.AddInstruction(PushInstr{expr: SexpNull})
 	}
 
 	gen.AddInstruction(RemoveScopeInstr{})
